@@ -23,6 +23,7 @@ type request struct {
 	Kind                  string // kind of the correct message the mutation started from
 	OneFrame              bool   // on a verified session: the whole message travels as ONE frame, whatever its length
 	MayClose              bool   // the session layer may answer a framing violation by closing (no panic, still serving)
+	EmptyFrames           int    // on a verified session: that many correctly sealed frames without content travel in front of the message
 }
 
 func (r *request) bytes() []byte {
@@ -879,6 +880,18 @@ func (cs *connState) buildGet(w *world, d caseDesc, rnd *rand.Rand) *request {
 	arg := d.Arg
 	t := w.target(arg)
 	rq := &request{Method: "GET", Kind: "get"}
+	if d.Class == "empty-frames" {
+		// correctly sealed frames without content (length 0, valid tag, consecutive counters) in front of a valid request:
+		// they carry no byte of the stream, the request behind them is complete and correct and has to be answered
+		counts := []int{1, 2, 50, 99, 100, 101, 150, 500, 2000}
+		rq.EmptyFrames = counts[arg%len(counts)]
+		rq.Target = fmt.Sprintf("/characteristics?id=%d.%d", t.AID, t.IID)
+		if d.EP == "accessories" {
+			rq.Target = "/accessories"
+		}
+		rq.Variant = fmt.Sprintf("a valid GET behind %d sealed frames without content", rq.EmptyFrames)
+		return rq
+	}
 	if d.Class == "frame-size" {
 		// a correctly sealed frame that is longer than the 1024 bytes the specification allows: a valid request padded
 		// with a header, travelling as ONE frame.  The accessory may serve it or close the connection; it may not
